@@ -10,7 +10,7 @@ loader.exec_module(chk)
 targets = set()
 for pid, cfg in chk.CHECKS.items():
     for r in cfg["runs"]:
-        if r.get("kind", "pbt") == "pbt":
+        if r.get("kind", "pbt") in ("pbt", "fuzz"):
             targets.add(r["bin"])
     targets.update(cfg.get("extra_targets", []))
 chk.build(sorted(targets))
